@@ -17,6 +17,11 @@ Silent == /\ l <= Len(Trace) /\ UNCHANGED l /\ Next
 TReturn == /\ IsEvent("Return") /\ exit # -1
            /\ ~Trace[l].crash
            /\ Trace[l].exit \in ExitSet(c)
+           \* a failing run says why on stderr ("FATAL: ..."), except under -quiet, where the exit code says it all.
+           \* DEV (as coded): -quiet's help text promises "nothing on stdout or stderr"; the logger's INFO lines on stdout and the flag
+           \* package's usage text are written regardless, so only the FATAL line is bound here.
+           /\ (c.present = "quiet" => ~Trace[l].fatalLine)
+           /\ (c.present # "quiet" /\ Trace[l].exit # 0 => ~Trace[l].stderrEmpty)      \* FATAL line, or the usage text for a malformed flag
            /\ UNCHANGED vars
 \* library side: a failed collateral fetch is an AttestationRecreationErr, a failed CRL fetch a CRLUnavailableErr, findable with errors.As;
 \* a verification failure that is not a fetch failure is neither
